@@ -22,7 +22,7 @@ MINIMUMS = (1500, 300)
 LOGLINE = re.compile(r"^\S*\d{4}-\d\d-\d\dT\S+\s+(TRACE|DEBUG|INFO|WARN|ERROR)\b", re.M)
 ANSI = re.compile(r"\x1b\[[0-9;]*m")     # the log lines are coloured even when piped
 SUBCOMMANDS = ["version", "flow", "render", "check"]
-MODES = ["exit128", "exit1", "exit1-silent", "ok-empty", "ok-garbage", "ok-utf8", "ok-huge", "ok-negative", "killed"]
+MODES = ["exit128", "exit1", "exit1-silent", "ok-empty", "ok-garbage", "ok-utf8", "ok-huge", "ok-negative", "killed", "exit128-long"]
 
 
 def scrape_flags(bins):
@@ -88,6 +88,11 @@ TEMPLATES = TERA_BUILTINS + ["{{ semver }}", "{{ pep440 }}", "{{ major }}.{{ min
 RONS = ["(core:[var(Major)], extra_core:[], build:[])", "(core:[], extra_core:[], build:[])", "(core:[var(Minor), var(Major)], extra_core:[], build:[])",
         "(core:[var(ts(\"%Q\"))], extra_core:[], build:[])", "(core:[var(ts(\"QQ\"))], extra_core:[], build:[])", "(core:[str(\"é日本\"), uint(18446744073709551615)], extra_core:[var(Dev)], build:[var(custom(\"a.b\"))])",
         "(", "[]", "", "()", "(core:[uint(-1)])", "(core:[var(Major)], extra_core:[var(Epoch), var(Epoch)], build:[])", "garbage", "(core: [var(BumpedBranch), var(Dirty)], extra_core: [], build: [var(ts(\"compact_datetime\"))])"]
+RONS += ["(core:[var(Major), var(Minor), var(Patch)], extra_core:[var(PreRelease), var(Post)], build:[var(BumpedBranch)], precedence_order:[Core])",
+         "(core:[var(Major), var(Minor), var(Patch)], extra_core:[var(Epoch), var(PreRelease), var(Post), var(Dev)], build:[], precedence_order:[])",
+         "(core:[var(Major), var(Minor), var(Patch)], extra_core:[var(Epoch), var(PreRelease), var(Post), var(Dev)], build:[str(\"b\")], precedence_order:[Build, ExtraCore, Dev, Post, PreReleaseNum, PreReleaseLabel, Core, Patch, Minor, Major, Epoch])",
+         "(core:[var(Major), uint(3), str(\"x\")], extra_core:[var(Post)], build:[], precedence_order:[Major, Post])",
+         "(core:[var(Major)], extra_core:[], build:[], precedence_order:[Major, Major, Nope])"]
 RULES = ["[]", "[(pattern: \"*\", pre_release_label: alpha, post_mode: commit)]", "[(pattern: \"x\", pre_release_label: rc, post_mode: tag)]",
          "[(pattern: \"x/*\", pre_release_label: rc, pre_release_num: 1, post_mode: tag)]", "[(pattern: \"é/*\", pre_release_label: beta, post_mode: commit)]",
          "[(pattern: \"\", pre_release_label: beta, pre_release_num: 4294967296, post_mode: commit)]", "(", "", "[(pattern: \"a\")]", "nonsense",
@@ -619,6 +624,22 @@ def run(ctx):
                 slow.append(dict(kind="fuzz", argv=argv, stdin=None, stdin_is_bytes=False))
             else:
                 ctx.refute(sig, why, dict(kind="fuzz", argv=argv, stdin=None, stdin_is_bytes=False))
+    # every bump / override flag against schemas whose precedence_order leaves levels out, repeats them or reverses them (via --schema-ron and via stdin)
+    po = [("--schema-ron", r_) for r_ in RONS if "precedence_order" in r_]
+    ops = [["--bump-major"], ["--bump-minor"], ["--bump-patch"], ["--bump-epoch"], ["--bump-post"], ["--bump-dev"], ["--bump-pre-release-num"], ["--bump-pre-release-label", "rc"],
+           ["--bump-core", "0"], ["--bump-core", "1=2"], ["--bump-extra-core", "0"], ["--bump-build", "0"], ["--core", "0=5"], ["--extra-core", "0=1"], ["--major", "3", "--bump-minor"],
+           ["--post", "2", "--bump-post", "--bump-core", "-1"]]
+    pob = []
+    for _, sch in po:
+        for op in ops:
+            pob.append((["version", "--source", "none", "--tag-version", "1.2.3-rc.1.post.4", "--schema-ron", sch] + op, None))
+            pob.append((["version", "--source", "stdin"] + op, "(schema: %s, vars: (major: Some(1), minor: Some(2), patch: Some(3), pre_release: Some((label: Rc, number: Some(1))), post: Some(4), custom: {}))" % sch))
+    for (argv, stdin), res in zip(pob, core.pmap(work_deep, [(ctx.bins, a, s_) for a, s_ in pob])):
+        ctx.evaluations += 1
+        ctx.count("precedence_order_bump_probes")
+        for sig, why in res:
+            if sig != "__timeout__":
+                ctx.refute(sig, why, dict(kind="fuzz", argv=argv, stdin=stdin, stdin_is_bytes=False))
     # Tera's looping built-ins: bounded ones must work, an unbounded one must not eat the machine (every run has an 8 GiB address-space ceiling)
     loops = [["render", "1.2.3", "--output-template", "{% for i in range(end=1000) %}x{% endfor %}"],
              ["render", "1.2.3", "--output-template", "{{ range(end=5, step_by=0) }}"],
